@@ -32,7 +32,7 @@ use std::collections::HashMap;
 use std::collections::hash_map::Entry;
 use std::hash::Hash;
 use vstd::std_specs::hash::EntrySpecFns;
-//@dropped memory.rs: `all_values` (into_values/for_each/extend closures — outside Verus), `load_slice` / `decompose_size` (panic-freedom only, in unit arith_sites; that a multi-word read concatenates the last generations of the words it covers is NOT under contract anywhere), derived Clone/Debug/Eq/PartialEq of Memory and MemStore (VMState fork = Memory::clone is assumed to copy), the #[cfg(test)] module
+//@dropped memory.rs: `all_values` (into_values/for_each/extend closures: not in THIS unit — under contract in unit collect, C06.collect.mem_all_values.*), `load_slice` / `decompose_size` (panic-freedom only, in unit arith_sites; that a multi-word read concatenates the last generations of the words it covers is NOT under contract anywhere), derived Clone/Debug/Eq/PartialEq of Memory and MemStore (VMState fork = Memory::clone is assumed to copy), the #[cfg(test)] module
 //@dropped overlap: the model is the code's — one history per distinct KEY. That a concrete EVM's MLOAD at a non-word-aligned or overlapping offset sees bytes of neighbouring stores is outside this contract (C07 quantifies over word-aligned MSTORE/MLOAD only); two constant offsets that differ by a multiple of 2^64 share a key (truncation, stated in key_of)
 //@dropped the value tree: `RuntimeBoxedVal = Arc<SymbolicValue<()>>` is an OPAQUE stand-in (BoxedVal) whose identity is what the real Eq/Hash decide (modulo instruction pointer / provenance); `RSV::new` is an A-CALLEE stand-in (uninterpreted constructor + the part of its contract proved in unit value_size: C18.vs.new.no_limit_untouched); `constant_fold` is an A-CALLEE (uninterpreted `fold`); its and `RSV::new`'s size precondition (`child_size() + 1` does not overflow) is NOT re-stated here
 //@dropped generations: the inner `stores.iter().map(|store| &store.data).collect()` is replaced as a whole by the A-STD stand-in data_refs (R-CALL, exact text: an edit of that closure makes the unit undecided, it does not reach the verifier); offsets: `keys().collect()` likewise (map_keys)
